@@ -160,6 +160,7 @@ def run(ctx, R):
         R.floor("position-vs-length classifications", n_cls, 3)
         lines_follow_consumed_newlines(F, R, tag)
         layout_then_eof(F, R, tag)
+        unknown_position_is_not_past(F, R, tag)
 
 
 def lines_follow_consumed_newlines(F, R, tag):
@@ -210,3 +211,60 @@ def layout_then_eof(F, R, tag):
     R.ob("C19:read_term:layout-before-end-of-input-is-end_of_file%s" % tag, bool(beyond_location),
          "error_after_read_term decides between end_of_file and syntax_error(incomplete_reduction) from the lexer's location alone (%s): after `a.` a blank line, trailing "
          "blanks or a comment make the next read raise a syntax error instead of answering end_of_file" % sorted(fields), F.where(fn[0]))
+
+
+def unknown_position_is_not_past(F, R, tag):
+    """A file stream opened on a pipe or FIFO (piped standard input, open/3 of a FIFO) has no position. "Where is the end"
+    is then not known before the next read: position_relative_to_end must answer Not, not mark the stream past its end —
+    otherwise the first at_end_of_stream test (every get_char/2 makes one) ends the stream after one character.
+    And when the parser then does meet the end of the input, read_term's end handler answers end_of_file (or runs the
+    eof_action) on every path: a stream that cannot tell its position must not leave the term unbound."""
+    pr = F.find_impl("Stream", None, "position_relative_to_end")
+    body = F.hir(pr)["body"]
+    bad = []
+    n_none = 0
+    for n in walk(body):
+        # `if let Some(position) = position { .. } else { <here> }`
+        if n["k"] == "If" and any(c.get("k") == "LetCond" and any((res_name(l) or "").endswith("::Some") for l in walk(c["pat"]) if isinstance(l, dict)) and
+                                  res_name(c.get("init", {})) == "position" for c in walk(n["cond"])) and "else" in n:
+            n_none += 1
+            marks = any(x["k"] == "Assign" and any(y.get("k") == "Path" and res_name(y) == "past_end_of_stream" for y in walk(x["lhs"])) for x in walk(n["else"]))
+            past = any((res_name(x) or "").endswith("AtEndOfStream::Past") for x in walk(n["else"]) if x["k"] == "Path")
+            if marks or past:
+                bad.append(n["ln"])
+    if n_none < 1:
+        raise AnchorLost("position_relative_to_end: the branch for a file stream without a position")
+    R.ob("C19:end-of-stream:unknown-position-is-not-past%s" % tag, not bad,
+         "position_relative_to_end marks a file stream whose position cannot be asked (a pipe, a FIFO) as past its end (line %s): `printf abc | scryer-prolog` reads "
+         "one character with get_char/1 and then end_of_file" % bad, F.where(pr))
+    eh = F.find_impl("MachineState", None, "read_term_eof_handler")
+    eb = F.hir(eh)["body"]
+
+    def answers(node):
+        return any((x["k"] == "MethodCall" and x["name"] == "eof_action") or
+                   any(m[0] in ("unify", "unify_fn") for m in x.get("mac", [])) or
+                   (x["k"] in ("Call", "MethodCall") and re.search(r"MachineState>?::unify", x.get("resolved") or x.get("callee") or "")) for x in walk(node))
+    top_ifs = [s for s in eb.get("stmts", []) + ([eb["expr"]] if "expr" in eb else []) if s["k"] == "If"]
+    covered = False
+    for i in top_ifs:
+        e = i
+        all_branches = True
+        while True:
+            if not answers(e["then"]):
+                all_branches = False
+            if "else" not in e:
+                all_branches = False
+                break
+            nxt = e["else"]
+            while nxt["k"] == "Block" and not nxt.get("stmts") and "expr" in nxt:
+                nxt = nxt["expr"]
+            if nxt["k"] == "If":
+                e = nxt
+                continue
+            if not answers(nxt):
+                all_branches = False
+            break
+        covered = covered or all_branches
+    R.ob("C19:read_term:end-of-input-answered-on-every-path%s" % tag, covered,
+         "read_term_eof_handler has a path that neither unifies end_of_file nor runs the eof_action (taken by streams that cannot tell their position: pipes, sockets): "
+         "read/2 at the end of such a stream succeeds and leaves the term unbound", F.where(eh))
